@@ -25,7 +25,7 @@ CLAIMS = {
              'denote exactly one matrix (incl. 0 <= colidx < ncols and strictly increasing columns per row), that all constructors and pickling go through it, that the numpy/scipy/mkl '
              'backends agree on assemble(data,rowptr,colidx,ncols) and on the export contract and that every consumer unpacks it in that order, constructor arities, the derived operators '
              'and caches of the base class, and the one-based index discipline of the MKL backend (which cannot be executed in this sandbox). Necessary conditions of "faithful to the data / '
-             'ambiguous input rejected"; numerical agreement of products, transposes and sub-matrices is NOT decided. Also decided: NumpyMatrix.__matmul__ contracts the first operand axis for operands of any dimension, and COO row compression computes index differences in a signed type so that unsorted or out-of-range rows are rejected for every integer dtype.',
+             'ambiguous input rejected"; numerical agreement of products, transposes and sub-matrices is NOT decided. Also decided: NumpyMatrix.__matmul__ contracts the first operand axis for operands of any dimension, and COO row compression computes index differences in a signed type so that unsorted or out-of-range rows are rejected for every integer dtype; assemble_block_csr establishes the per-block obligations (row pointers from 0 to len(values), column indices inside the block) before it re-bases and splices the blocks.',
         note='Trusts: CPython ast; the idiom table for guards (all(e), numpy.all(e), e.all(); shifted-slice and numpy.diff adjacent comparisons); role names of index arrays '
              '(colidx/indices/cols vs rowptr/indptr). Unclassifiable constructs in the anchor give ANALYSIS-ERROR.',
         design='DESIGN.md section 2, C15'),
@@ -33,7 +33,7 @@ CLAIMS = {
         technique='static analysis: symtable name resolution, per-path guard facts in front of the yield of the specification parser, taint of the raw specification, emitted-check presence (ast)',
         text='Decides the specification handling behind replace/linearize/derivative: every name in the anchored mechanisms resolves; all documented spellings are accepted; on every enumerated path '
              'to the yield of _argument_to_array the key type, membership, shape and dtype were verified by ValueError guards (or the replacement is built from the key); run-time ingestion emits '
-             'asarray + a shape test; the raw specification is consumed only through the parser; announced argument tables are computed from the parsed pairs. These are necessary for "all spellings '
+             'a casting-checked conversion to the declared kind + a shape test; the raw specification is consumed only through the parser; announced argument tables are computed from the parsed pairs. These are necessary for "all spellings '
              'equivalent, wrong shape/dtype rejected"; that replace/linearize/factor commute with evaluation numerically is NOT decided.',
         note='Trusts: CPython ast/symtable; the parameter and local names of _argument_to_array as read today (the rule re-derives them from the signature and the yield).',
         design='DESIGN.md section 2, C13'),
